@@ -11,7 +11,8 @@ from ..core import (AnalysisError, FuncInfo, Report, call_name, const_value,
 from ..ctx import Ctx
 from ..dataflow import default_of
 from ..tables import check_brackets, load_corpus, shape
-from .util import actual, calls_in, ctor_arg, enclosing, kw
+from .util import (actual, arm_where, calls_in, cguards, ctor_arg,
+                   enclosing, kw)
 
 EXPLANATION = (
     "Whether the DFS linearisation closes blocks correctly depends on the "
@@ -271,8 +272,18 @@ def r52_53(rep: Report, ctx: Ctx, tables: dict[str, Any]) -> None:
     rep.ob("R5.3", "frame sequence", ok, fi=ws,
            node=lists[0] if lists else ws.node, detail=" . ".join(seq))
     rets = [r for r in ast.walk(ws.node) if isinstance(r, ast.Return)]
-    ok = len(rets) == 1 and unparse(rets[0].value).replace("'", '"') == \
-        '"\\n".join(lines)'
+    rv = ctx.reach(ws).resolve(rets[0].value, at=rets[0]) if len(rets) == 1 \
+        and rets[0].value is not None else None
+    ok = False
+    if isinstance(rv, ast.Call) and isinstance(rv.func, ast.Attribute) \
+            and rv.func.attr == "join" and isinstance(
+                rv.func.value, ast.Constant) and rv.func.value.value == "\n" \
+            and len(rv.args) == 1:
+        src = ctx.reach(ws).resolve(rv.args[0], at=rets[0])
+        ok = bool(lists) and (src is lists[0] or (
+            isinstance(rv.args[0], ast.Name) and any(
+                b.value is lists[0]
+                for b in ctx.defs(ws).of(rv.args[0].id))))
     rep.ob("R5.3", "lines are joined by newlines", ok, fi=ws,
            node=rets[0] if rets else ws.node,
            detail=unparse(rets[0].value) if rets else "<missing>")
@@ -343,9 +354,13 @@ def r54(rep: Report, ctx: Ctx) -> None:
     for fi in ctx.index.all_functions():
         for c in ast.walk(fi.node):
             if isinstance(c, ast.Compare) and len(c.ops) == 1 and isinstance(
-                    c.ops[0], ast.Eq) and unparse(c.left).endswith(
-                    ".node_type") and isinstance(c.comparators[0], ast.Name):
-                p = c.comparators[0].id
+                    c.ops[0], ast.Eq):
+                sides = [c.left, c.comparators[0]]
+                nt = [x for x in sides if unparse(x).endswith(".node_type")]
+                nm = [x for x in sides if isinstance(x, ast.Name)]
+                if len(nt) != 1 or len(nm) != 1:
+                    continue
+                p = nm[0].id
                 removes = any(isinstance(x, ast.Call) and call_name(x) in (
                     "remove_node", "remove_nodes_from")
                     for x in ast.walk(fi.node))
@@ -459,11 +474,13 @@ def _recurses_into_sub_graphs(ctx: Ctx, sink: FuncInfo) -> bool:
 def _loop_placeholder(rep: Report, ctx: Ctx) -> None:
     w = ctx.func("PUMLEventNode.write_uml_blocks")
     ifs = [i for i in w.node.body if isinstance(i, ast.If)]
-    ok = bool(ifs) and unparse(ifs[0].test) == "self.sub_graph is not None" \
+    has_body = ("cmp", "self.sub_graph", "IsNot", "None")
+    arm = arm_where(ifs[0], has_body) if ifs else None
+    ok = arm is not None \
         and any(call_name(c) == "write_uml_blocks" and "sub_graph" in
-                unparse(c.func) for c in ast.walk(ifs[0])
+                unparse(c.func) for st in arm for c in ast.walk(st)
                 if isinstance(c, ast.Call)) and not any(
-            call_name(c) == "_write_event_blocks" for st in ifs[0].body
+            call_name(c) == "_write_event_blocks" for st in arm
             for c in ast.walk(st) if isinstance(c, ast.Call))
     rep.ob("R5.4", "loop nodes are written as their body, never by name", ok,
            fi=w, node=ifs[0] if ifs else w.node,
@@ -486,9 +503,11 @@ def _loop_placeholder(rep: Report, ctx: Ctx) -> None:
             if ok:
                 fl = enclosing(wn.node, fill[0], (ast.For,))
                 it = defs.resolve(fl[-1].iter) if fl else None
+                filled = ctx.reach(wn).resolve_deep(fill[0].args[0],
+                                                    at=fill[0])
                 ok = bool(fl) and not enclosing(fl[-1], fill[0], (ast.If,)) \
                     and isinstance(it, ast.ListComp) and "SubGraphNode" in \
-                    unparse(it) and "walk_nested_graph" in unparse(fill[0])
+                    unparse(it) and "walk_nested_graph" in unparse(filled)
     rep.ob("R5.4", "every SubGraphNode gets its walked body attached", ok,
            fi=wn, node=att[0] if att else wn.node,
            detail="for each SubGraphNode: attach walk_nested_graph("
@@ -565,18 +584,23 @@ def r56(rep: Report, ctx: Ctx) -> None:
     web = ctx.func("PUMLEventNode._write_event_blocks")
     apps = [c for c in ast.walk(web.node) if isinstance(c, ast.Call)
             and call_name(c) == "append"]
-    brk = [c for c in apps if (_template(c.args[0]) or "") == "break"]
+    rweb = ctx.reach(web)
+    brk = [c for c in apps if (_template(rweb.resolve(c.args[0], at=c))
+                               or "") == "break"]
     ok = len(brk) == 1 and apps and apps[-1] is brk[0] and all(
         c.lineno <= brk[0].lineno for c in apps)
-    g = enclosing(web.node, brk[0], (ast.If,)) if brk else []
-    ok = ok and len(g) == 1 and "PUMLEvent.BREAK in" in unparse(g[0].test)
+    g = cguards(ctx, web, brk[0]) if brk else []
+    ok = ok and len(g) == 1 and g[0][0] == "cmp" and g[0][2] == "In" \
+        and g[0][1] == "PUMLEvent.BREAK"
     rep.ob("R5.6", "event node: break is the last line, only for BREAK "
            "events", ok, fi=web, node=brk[0] if brk else web.node,
            detail="blocks.append(':X;'); if BREAK: blocks.append('break')")
     w = ctx.func("PUMLEventNode.write_uml_blocks")
     apps = [c for c in ast.walk(w.node) if isinstance(c, ast.Call)
             and call_name(c) == "append"]
-    brk = [c for c in apps if (_template(c.args[0]) or "") == "break"]
+    rw = ctx.reach(w)
+    brk = [c for c in apps if (_template(rw.resolve(c.args[0], at=c))
+                               or "") == "break"]
     ok = len(brk) == 1
     if ok:
         g = enclosing(w.node, brk[0], (ast.If,))
@@ -660,10 +684,13 @@ def r58(rep: Report, ctx: Ctx) -> None:
            node=lookups[0] if lookups else loop,
            detail=unparse(lookups[0])[:90] if lookups else "<missing>")
     rec = calls_in(ctx, fi, fi)
+    rr = ctx.reach(fi)
     ok = len(rec) == 1 and unparse(rec[0].args[0]) == succ and not enclosing(
         loop, rec[0], (ast.If,)) and any(
-        isinstance(c, ast.Call) and call_name(c) == "extend"
-        and any(x is rec[0] for x in ast.walk(c)) for c in ast.walk(loop))
+        isinstance(c, ast.Call) and call_name(c) == "extend" and c.args
+        and (any(x is rec[0] for x in ast.walk(c))
+             or rr.resolve(c.args[0], at=c) is rec[0])
+        for c in ast.walk(loop))
     rep.ob("R5.8", "every successor's sub-order is appended after its "
            "separator", ok, fi=fi, node=rec[0] if rec else loop,
            detail="ordered_nodes.extend(recurse(successor)) unconditionally, "
@@ -794,7 +821,8 @@ def r510(rep: Report, ctx: Ctx) -> None:
         if isinstance(st, (ast.Assign, ast.AnnAssign)):
             tgt = st.targets[0] if isinstance(st, ast.Assign) else st.target
             a = _self_attr(tgt)
-            v = st.value
+            v = ctx.reach(init).resolve_deep(st.value, at=st) \
+                if st.value is not None else None
             if a and v is not None and any(
                     isinstance(c, ast.Call) and dotted(c.func) == "len"
                     and c.args and _self_attr(c.args[0]) == "paths"
